@@ -178,7 +178,11 @@ def run(F, rep, tier, allfacts):
         for ci, cid_, cset_, ctgt in check_calls(f):
             if ci != i:
                 if describe(f, cid_, depth=20) == d and cfg.dominates(ci, i):
-                    used = ctgt is not None and f["bbs"][ctgt]["t"][0] == "call" and callee_matches(f["bbs"][ctgt]["t"][1], r"Try(<[^>]*>)?>?::branch$")
+                    nb_ = ctgt
+                    for _hop in range(4):            # the result may travel through plain jumps (an inlined helper's return) before `?`
+                        if nb_ is not None and f["bbs"][nb_]["t"][0] == "goto":
+                            nb_ = f["bbs"][nb_]["t"][1]
+                    used = nb_ is not None and f["bbs"][nb_]["t"][0] == "call" and callee_matches(f["bbs"][nb_]["t"][1], r"Try(<[^>]*>)?>?::branch$")
                     if used:
                         cls = "CHECKED"
         if cls is None:
